@@ -232,3 +232,19 @@ def continuum_and_spec(draw, kinds=("pos", "abs", "precomputed", "lev", "ordinal
         unl = draw(st.integers(0, 99)) < unlabelled_ratio * 100
     cont = draw(continua(labels=cats if cats is not None else LABELS_ABC, unlabelled=unl, **kw))
     return {"continuum": cont, "dissim": spec}
+
+
+@st.composite
+def sequence_continua(draw, labels=LABELS_ABC, sizes=((3, 30, 36), (4, 15, 20))):
+    """long, mostly sequential annotations (limited overlap): the shape for which fast-gamma's window is finite"""
+    p, lo, hi = draw(st.sampled_from(list(sizes)))
+    names = ["a", "b", "c", "d", "e"][:p]
+    units = []
+    for a in names:
+        k = draw(st.integers(lo, hi))
+        t = draw(dyadic(0, 3))
+        for _ in range(k):
+            d = draw(dyadic(1, 4))
+            units.append([a, t, t + d, draw(st.sampled_from(labels))])
+            t += d + draw(dyadic(0.5, 3))
+    return {"annotators": names, "units": units, "shape": "sequence"}
